@@ -55,6 +55,16 @@ CHECKS["C08"] = dict(
     technique="SMT translation validation (z3 NRA) of pullback application against push-forward definitions",
     design="§4 C08", engine="E1")
 
+CHECKS["C03"] = dict(
+    level="translation_validation",
+    text="expand_derivatives runs on (operand from a pool covering every operator category) x (grad, div, curl, "
+         "nabla_grad, nabla_div, .dx) at order 1 and on order-2 compositions; z3 proves the expanded expression "
+         "equals the derivative computed by dual-number (jet) arithmetic over the input for all jet values; "
+         "derivatives-only-on-terminals is checked structurally; geometric seeds use an affine cell model.",
+    technique="SMT translation validation (z3 NRA + uninterpreted functions with ground textbook lemma instances) "
+              "against dual-number jet semantics",
+    design="§4 C03", engine="E1")
+
 NOT_APPLICABLE = {
     "C11": "Signature injectivity is injectivity of string renderings (repr/str, numpy array printing, float "
            "formatting) composed with sha512: CrossHair cannot confirm it, z3/cvc5 string theories answer unknown, "
